@@ -9,7 +9,7 @@
    implementation under several PYTHONHASHSEED values.  "Neither input is modified": the
    model is a pure function of its inputs (the Python only reads col[i] of the inputs and
    appends to fresh lists); the harness observes the inputs before and after each call. *)
-From Coq Require Import List Bool Arith String.
+From Coq Require Import List Bool Arith String Sorted.
 From Serif Require Import Base.PyVal Spec.Join Model.Join Proofs.Join.
 Import ListNotations.
 
@@ -58,6 +58,18 @@ Theorem C09_join_row_cells : forall V (L R : table V) i j,
   out_row L R (Some i, Some j) = map (fun c => cell_at c i) L ++ map (fun c => cell_at c j) R.
 Proof. exact @out_row_matched. Qed.
 Print Assumptions C09_join_row_cells.
+
+(* join_names: all left names, then all right names, unchanged (whenever there is a row). *)
+Theorem C09_join_names : forall V (L R : table V) T p ps,
+  holds_rows L R T (p :: ps) -> map fst T = map cname L ++ map cname R.
+Proof. exact @holds_rows_names. Qed.
+Print Assumptions C09_join_names.
+
+(* Rows are ordered by left row position and then by right row position (strictly: no pair twice). *)
+Theorem C09_rows_left_major : forall K (keq : K -> K -> bool) n m lk rk,
+  StronglySorted pair_before (inner_pairs keq n m lk rk).
+Proof. exact @inner_pairs_sorted. Qed.
+Print Assumptions C09_rows_left_major.
 
 (* A key specification that is refused is refused with the same error by all three joins. *)
 Theorem C09_invalid_keys_refused : forall V (veq : V -> V -> bool), eq_equivalence veq ->
